@@ -1273,7 +1273,12 @@ Expr={expr}"""
         **optimize_kwargs
             Key-word arguments to pass through to `optimize`.
         """
-        df = self.optimize(**optimize_kwargs) if optimize else self
+        if optimize:
+            df = self.optimize(**optimize_kwargs)
+        else:
+            # the graph is always built from the lowered expression; name and
+            # divisions have to describe that one as well
+            df = new_collection(self.expr.lower_completely())
         return new_dd_object(df.dask, df._name, df._meta, df.divisions)
 
     def to_dask_array(
